@@ -439,6 +439,17 @@ def triu_test(rep, F, tag):
                 'sub-diagonal entry, which permute_symmetric then silently drops' % why, f.loc())
         cs = F.one(name='check_structure')
         R.check(len(calls_named(cs, 'is_triu')) == 1, 'used' + tag, 'check_structure does not call is_triu', cs.loc())
+        # decision table of check_structure: Ok only if square, upper triangular and every column non-empty (strict colptr growth)
+        cl = [canon(g.sym_local(0)) for g in F.closures_of.get(cs.key, [])]
+        for val, ret, ev, tr in Walker(cs).leaves():
+            if ret[0] == 's' and str(ret[1]).startswith('Result::Ok'):
+                sq = val.get('is_square(arg1)') == 1
+                tri = val.get('is_triu(arg1)') == 1
+                ne_all = val.get('all(windows(arg1.colptr, 2_usize), closure())') == 1 and cl == ['lt(arg2[0_usize], arg2[1_usize])']
+                ne_any = val.get('any(windows(arg1.colptr, 2_usize), closure())') == 0 and cl in (['le(arg2[1_usize], arg2[0_usize])'], ['eq(arg2[0_usize], arg2[1_usize])'])
+                R.check(sq and tri and (ne_all or ne_any), 'structure-accepts-only' + tag,
+                        'check_structure returns Ok under %s with column test %s: a matrix is accepted only if it is square, upper triangular and '
+                        'colptr grows strictly (every column has an entry)' % ({k: v for k, v in val.items()}, cl), cs.loc())
 
     R.guard(body)
 
